@@ -36,7 +36,7 @@ def build():
     u.take(H, "Hook", "hooks")
     u.raw("hooks", SPEC)
     u.macro(H, "get_hook_output")
-    u.verify(H, "call_single", "hooks", props=["C10", "C07"], fns={"call_single": FnSpec(ret="r", ghost=True, sig="""
+    u.verify(H, "call_single", "hooks", props=["C10", "C07", "C05"], fns={"call_single": FnSpec(ret="r", ghost=True, sig="""
     requires !old(w).running,
     ensures r is Ok ==> !final(w).running,
         // an error between spawn and wait (stdin template / stdin write) must not leave the child un-waited
@@ -46,6 +46,7 @@ def build():
         r is Ok ==> (proc_of(*hook, data) matches Some(p) && final(w).spawned == old(w).spawned.push(p)), //@C10.process_is_the_configured_command
         // a hook that did not end with exit code 0 (another code, or killed by a signal) is a failed step unless allow_failure is set
         r is Ok ==> final(w).last_exit_ok || hook.allow_failure, //@C10.a_failed_hook_aborts_the_operation_unless_allow_failure,C07.a_failed_step_makes_a_failed_attempt
+        final(w).bad_exits <= old(w).bad_exits + 1, r is Ok && !hook.allow_failure ==> final(w).bad_exits == old(w).bad_exits, //@C10.a_failed_hook_aborts_the_operation_unless_allow_failure,C07.a_failed_step_makes_a_failed_attempt
         r is Err ==> final(w).spawned == old(w).spawned
             || (proc_of(*hook, data) matches Some(p) && final(w).spawned == old(w).spawned.push(p)), //@C10.error_leaves_at_most_this_process
 """, loops={1: """
@@ -67,21 +68,24 @@ def build():
         rewrites=[("T-FMT", r"format!\(\"\{\}\\n\", line\?\)", 'crate::vproc::cat2(&line?, "\\n")')])})
     m, hdr = filter_loop(H, "call")
     cond = m.group("c")
-    u.verify(H, "call", "hooks", props=["C10"], fns={"call": FnSpec(ret="r", ghost=True, sig="""
+    u.verify(H, "call", "hooks", props=["C10", "C07", "C05"], fns={"call": FnSpec(ret="r", ghost=True, sig="""
     requires !old(w).running,
     ensures r is Ok ==> !final(w).running,
         // exactly the hooks whose type list contains the event's type are run, one after the other, in declaration order;
         // the first hard failure aborts the sequence
         r is Ok ==> final(w).spawned == old(w).spawned + selected(hooks@, hook_type, *data, hooks@.len() as int), //@C10.hooks_of_this_type_in_order
+        // the sequence is reported as done only if every hook that may not fail ended with exit code 0
+        r is Ok ==> final(w).bad_exits <= old(w).bad_exits + tolerant(hooks@, hook_type, hooks@.len() as int), //@C10.a_failed_hook_aborts_the_operation_unless_allow_failure,C07.a_failed_step_makes_a_failed_attempt,C05.a_failed_challenge_hook_stops_the_validation
         r is Err ==> exists|k: int| 0 <= k < hooks@.len() && hooks@[k].hook_type@.contains(hook_type)
             && (final(w).spawned == old(w).spawned + selected(hooks@, hook_type, *data, k + 1)
                 || final(w).spawned == old(w).spawned + selected(hooks@, hook_type, *data, k)), //@C10.first_hard_failure_aborts
 """, loops={1: """
     invariant !w.running, w.spawned == old(w).spawned + selected(hooks@, hook_type, *data, it.index@),
+        w.bad_exits <= old(w).bad_exits + tolerant(hooks@, hook_type, it.index@), //@C10.a_failed_hook_aborts_the_operation_unless_allow_failure,C07.a_failed_step_makes_a_failed_attempt,C05.a_failed_challenge_hook_stops_the_validation
 """}, rewrites=[hdr],
         at=[("loop_start", None, 1, "if { let " + m.group("p") + " = &" + m.group("x") + "; " + cond + " } {", "T-ITER"),
-            ("loop_end", None, 1, "} else { proof { lemma_selected_step(hooks@, hook_type, *data, it.index@); } }", "T-ITER"),
-            ("after_stmt", "call_single(", 1, "proof { lemma_selected_step(hooks@, hook_type, *data, it.index@); }"),
+            ("loop_end", None, 1, "} else { proof { lemma_selected_step(hooks@, hook_type, *data, it.index@); lemma_tolerant_step(hooks@, hook_type, it.index@); } }", "T-ITER"),
+            ("after_stmt", "call_single(", 1, "proof { lemma_selected_step(hooks@, hook_type, *data, it.index@); lemma_tolerant_step(hooks@, hook_type, it.index@); }"),
             ])})
     return u
 
@@ -94,6 +98,7 @@ pub tracked struct World {
     pub ghost runs: Seq<int>,      // unused
     pub ghost running: bool,
     pub ghost last_exit_ok: bool,  // the latest child waited for ended with exit code 0 (not another code, not a signal)
+    pub ghost bad_exits: nat,      // children waited for that did not end with exit code 0 (or could not be waited for)
 }
 """
 
@@ -131,6 +136,16 @@ pub open spec fn selected<T: HookEnvData>(hooks: Seq<Hook>, ty: HookType, data: 
         if hooks[n - 1].hook_type@.contains(ty) && proc_of(hooks[n - 1], &data) is Some { prev.push(proc_of(hooks[n - 1], &data).unwrap()) } else { prev }
     }
 }
+// how many of the first n hooks are of this type and may fail (allow_failure)
+pub open spec fn tolerant(hooks: Seq<Hook>, ty: HookType, n: int) -> nat
+    decreases n
+{
+    if n <= 0 { 0 } else { tolerant(hooks, ty, n - 1) + (if hooks[n - 1].hook_type@.contains(ty) && hooks[n - 1].allow_failure { 1nat } else { 0nat }) }
+}
+pub proof fn lemma_tolerant_step(hooks: Seq<Hook>, ty: HookType, i: int)
+    requires 0 <= i < hooks.len()
+    ensures tolerant(hooks, ty, i + 1) == tolerant(hooks, ty, i) + (if hooks[i].hook_type@.contains(ty) && hooks[i].allow_failure { 1nat } else { 0nat })
+{}
 pub proof fn lemma_selected_step<T: HookEnvData>(hooks: Seq<Hook>, ty: HookType, data: T, i: int)
     requires 0 <= i < hooks.len()
     ensures selected(hooks, ty, data, i + 1) == (if hooks[i].hook_type@.contains(ty) && proc_of(hooks[i], &data) is Some
